@@ -3,7 +3,7 @@
 
 use std::io::Write as _;
 
-use bstr::{BString, ByteSlice};
+use bstr::BString;
 use noodles_core::Position;
 use noodles_gff::{
     self as gff,
@@ -193,6 +193,23 @@ fn is_ctrl(c: u8) -> bool {
     c < 0x20 || c == 0x7f
 }
 
+/// Class of the first character of `raw` that the column must not contain unescaped.
+fn raw_reserved(raw: &[u8], extra: &[u8]) -> Option<&'static str> {
+    raw.iter().find_map(|&c| match c {
+        b'\t' => Some("tab"),
+        b'\n' => Some("lf"),
+        b'\r' => Some("cr"),
+        c if is_ctrl(c) => Some("ctrl"),
+        c if extra.contains(&c) => Some(match c {
+            b'&' => "amp",
+            b',' => "comma",
+            b'=' => "equals",
+            _ => "semicolon",
+        }),
+        _ => None,
+    })
+}
+
 /// Parses one written record line by the letter of the GFF3 specification and compares it with
 /// `x`. Returns (field, class, symptom, detail) for the first problem (attributes first).
 pub fn spec_check_line(line: &[u8], x: &GRec) -> Option<(String, &'static str, &'static str, String)> {
@@ -250,13 +267,11 @@ pub fn spec_check_line(line: &[u8], x: &GRec) -> Option<(String, &'static str, &
                     continue;
                 };
                 let (traw, vraw) = (&part[..eq], &part[eq + 1..]);
-                match pct_decode(traw) {
-                    Ok(t) if &t == tag && !traw.iter().any(|&c| is_ctrl(c) || matches!(c, b'&' | b',')) => {}
-                    Ok(_) if traw.iter().any(|&c| is_ctrl(c) || matches!(c, b'&' | b',')) => {
-                        problems.push(("attr-tag".into(), class_of(tag), "raw-reserved-written", lit(traw)));
-                    }
-                    Ok(_) => problems.push(("attr-tag".into(), class_of(tag), "spec-parse-differs", lit(traw))),
-                    Err(e) => problems.push(("attr-tag".into(), class_of(tag), "raw-reserved-written", format!("{e} in {}", lit(traw)))),
+                match (raw_reserved(traw, b"&,;"), pct_decode(traw)) {
+                    (Some(cls), _) => problems.push(("attr-tag".into(), cls, "raw-reserved-written", lit(traw))),
+                    (None, Err(e)) => problems.push(("attr-tag".into(), "percent", "raw-reserved-written", format!("{e} in {}", lit(traw)))),
+                    (None, Ok(t)) if &t == tag => {}
+                    (None, Ok(_)) => problems.push(("attr-tag".into(), class_of(tag), "spec-parse-differs", lit(traw))),
                 }
                 let elems: Vec<&[u8]> = vraw.split(|&c| c == b',').collect();
                 if elems.len() != vals.len() {
@@ -272,12 +287,11 @@ pub fn spec_check_line(line: &[u8], x: &GRec) -> Option<(String, &'static str, &
                     continue;
                 }
                 for (eraw, want) in elems.iter().zip(vals) {
-                    let reserved_raw = eraw.iter().any(|&c| is_ctrl(c) || matches!(c, b'&' | b'='));
-                    match pct_decode(eraw) {
-                        Ok(v) if &v == want && !reserved_raw => {}
-                        Ok(_) if reserved_raw => problems.push(("attr-value".into(), class_of(want), "raw-reserved-written", lit(eraw))),
-                        Ok(_) => problems.push(("attr-value".into(), class_of(want), "spec-parse-differs", lit(eraw))),
-                        Err(e) => problems.push(("attr-value".into(), class_of(want), "raw-reserved-written", format!("{e} in {}", lit(eraw)))),
+                    match (raw_reserved(eraw, b"&=;"), pct_decode(eraw)) {
+                        (Some(cls), _) => problems.push(("attr-value".into(), cls, "raw-reserved-written", lit(eraw))),
+                        (None, Err(e)) => problems.push(("attr-value".into(), "percent", "raw-reserved-written", format!("{e} in {}", lit(eraw)))),
+                        (None, Ok(v)) if &v == want => {}
+                        (None, Ok(_)) => problems.push(("attr-value".into(), class_of(want), "spec-parse-differs", lit(eraw))),
                     }
                 }
             }
@@ -310,23 +324,34 @@ pub fn spec_check_line(line: &[u8], x: &GRec) -> Option<(String, &'static str, &
     }
     // text columns 3, 2, 1: "tab, newline, carriage return, % and control characters must be escaped"
     for (name, col, want) in [("type", cols[2], &x.ty), ("source", cols[1], &x.source), ("seqid", cols[0], &x.seqid)] {
-        if col.iter().any(|&c| is_ctrl(c)) {
-            problems.push((name.into(), class_of(want), "raw-reserved-written", lit(col)));
-            continue;
-        }
-        match pct_decode(col) {
-            Ok(v) if &v == want => {}
-            Ok(_) => {
-                // a '%' of the value was written raw in front of two hex digits
-                problems.push((name.into(), class_of(want), "raw-reserved-written", format!("{} decodes to something else", lit(col))));
-            }
-            Err(e) => problems.push((name.into(), class_of(want), "raw-reserved-written", format!("{e} in {}", lit(col)))),
+        match (raw_reserved(col, b""), pct_decode(col)) {
+            (Some(cls), _) => problems.push((name.into(), cls, "raw-reserved-written", lit(col))),
+            (None, Err(e)) => problems.push((name.into(), "percent", "raw-reserved-written", format!("{e} in {}", lit(col)))),
+            (None, Ok(v)) if &v == want => {}
+            // a '%' of the value was written raw in front of two hex digits
+            (None, Ok(_)) => problems.push((name.into(), "percent", "raw-reserved-written", format!("{} decodes to something else", lit(col)))),
         }
     }
     if cols[0].first() == Some(&b'>') || body.first() == Some(&b'#') {
         problems.push(("seqid".into(), class_of(&x.seqid), "raw-reserved-written", format!("line starts with {}", lit(&body[..1]))));
     }
     problems.into_iter().next()
+}
+
+/// A text column that came back still percent-encoded is its own class of failure.
+fn differs_how(want: &GRec, got: &GRec, field: &str, bytes_of: &[u8]) -> (&'static str, &'static str) {
+    let pair = match field {
+        "seqid" => Some((&want.seqid, &got.seqid)),
+        "source" => Some((&want.source, &got.source)),
+        "type" => Some((&want.ty, &got.ty)),
+        _ => None,
+    };
+    if let Some((w, g)) = pair {
+        if g != w && pct_decode(g).ok().as_ref() == Some(w) {
+            return ("needs-escape", "not-percent-decoded");
+        }
+    }
+    (class_of(bytes_of), "value-differs")
 }
 
 fn fp(stage: &str, path: &str, field: &str, class: &str, symptom: &str) -> String {
@@ -512,8 +537,9 @@ pub fn check_file(lines: &[MLine], use_write_line: bool) -> FileOutcome {
                     (Ok(gff::LineBuf::Record(r)), MLine::Rec(x)) => {
                         let got = from_owned(r);
                         if let Some((field, bytes_of)) = gdiff(x, &got) {
+                            let (class, symptom) = differs_how(x, &got, field, &bytes_of);
                             out.violations.push(Violation::new(
-                                fp("read", "owned", field, class_of(&bytes_of), "value-differs"),
+                                fp("read", "owned", field, class, symptom),
                                 format!("{decoded}; written = {}", lit(&bytes)),
                                 grec_literal(x),
                                 grec_literal(&got),
@@ -556,16 +582,8 @@ pub fn check_file(lines: &[MLine], use_write_line: bool) -> FileOutcome {
                             ));
                         }
                     }
-                    (Ok(gff::LineBuf::Comment(c)), MLine::Comment(x)) => {
-                        if c.to_vec() != *x {
-                            out.violations.push(Violation::new(
-                                fp("read", "owned", "comment", class_of(x), "value-differs"),
-                                format!("{decoded}; written = {}", lit(&bytes)),
-                                lit(x),
-                                lit(c),
-                            ));
-                        }
-                    }
+                    // comments are context only (the statement is about records and directives)
+                    (Ok(gff::LineBuf::Comment(_)), MLine::Comment(_)) => {}
                     (Err(e), MLine::Rec(x)) => {
                         let (field, class) = first_rec_problem(x);
                         out.violations.push(Violation::new(
@@ -607,8 +625,9 @@ pub fn check_file(lines: &[MLine], use_write_line: bool) -> FileOutcome {
                 match (item, want) {
                     (Ok(LazyLine::Rec { lazy, built }), MLine::Rec(x)) => {
                         if let Some((field, bytes_of)) = gdiff(x, lazy) {
+                            let (class, symptom) = differs_how(x, lazy, field, &bytes_of);
                             out.violations.push(Violation::new(
-                                fp("read", "lazy", field, class_of(&bytes_of), "value-differs"),
+                                fp("read", "lazy", field, class, symptom),
                                 format!("{decoded}; written = {}", lit(&bytes)),
                                 grec_literal(x),
                                 grec_literal(lazy),
@@ -643,16 +662,7 @@ pub fn check_file(lines: &[MLine], use_write_line: bool) -> FileOutcome {
                             ));
                         }
                     }
-                    (Ok(LazyLine::Comment(c)), MLine::Comment(x)) => {
-                        if c != x {
-                            out.violations.push(Violation::new(
-                                fp("read", "lazy", "comment", class_of(x), "value-differs"),
-                                format!("{decoded}; written = {}", lit(&bytes)),
-                                lit(x),
-                                lit(c),
-                            ));
-                        }
-                    }
+                    (Ok(LazyLine::Comment), MLine::Comment(_)) => {}
                     (Err(e), MLine::Rec(x)) => {
                         let (field, class) = first_rec_problem(x);
                         let symptom = if e.starts_with("HANG") { "hang" } else { "error" };
@@ -707,11 +717,42 @@ pub fn check_file(lines: &[MLine], use_write_line: bool) -> FileOutcome {
     out
 }
 
+/// `check_file`, and when a record with several unusual fields fails, the failure of the first
+/// field that also fails alone in a plain record is reported instead (exact field and class, minimal
+/// input); `interaction=yes` marks failures that no single field reproduces.
+pub fn check_attributed(lines: &[MLine], use_write_line: bool) -> FileOutcome {
+    let mut out = check_file(lines, use_write_line);
+    if out.violations.is_empty() {
+        return out;
+    }
+    let multi = lines.len() > 1 || lines.iter().any(|l| matches!(l, MLine::Rec(x) if crate::model::non_plain_fields(x) > 1));
+    if !multi {
+        return out;
+    }
+    for l in lines {
+        if let MLine::Rec(x) = l {
+            for iso in crate::model::isolate(x, b"Note") {
+                let r = check_file(&[MLine::Rec(iso)], false);
+                if !r.violations.is_empty() {
+                    out.violations = r.violations;
+                    return out;
+                }
+            }
+        }
+    }
+    for v in out.violations.iter_mut() {
+        if !["field=phase", "field=strand", "field=score", "field=start", "field=end", "field=directive"].iter().any(|f| v.fingerprint.contains(f)) {
+            v.fingerprint.push_str(" interaction=yes");
+        }
+    }
+    out
+}
+
 #[derive(Debug)]
 pub enum LazyLine {
     Rec { lazy: GRec, built: Result<GRec, String> },
     Dir { key: B, value: Option<B> },
-    Comment(B),
+    Comment,
 }
 
 fn lazy_line(line: &gff::Line, cap: usize) -> Result<LazyLine, String> {
@@ -720,7 +761,7 @@ fn lazy_line(line: &gff::Line, cap: usize) -> Result<LazyLine, String> {
             let d = line.as_directive().ok_or("as_directive() is None for a directive line")?;
             Ok(LazyLine::Dir { key: d.key().to_vec(), value: d.value().map(|v| v.to_vec()) })
         }
-        gff::line::Kind::Comment => Ok(LazyLine::Comment(line.as_comment().ok_or("as_comment() is None")?.to_vec())),
+        gff::line::Kind::Comment => line.as_comment().map(|_| LazyLine::Comment).ok_or_else(|| "as_comment() is None".to_string()),
         gff::line::Kind::Record => {
             let rec = line.as_record().ok_or("as_record() is None")?.map_err(|e| e.to_string())?;
             let lazy = from_lazy(&rec, cap)?;
@@ -758,6 +799,3 @@ pub fn pick(mut v: Vec<Violation>) -> Option<Violation> {
     let i = (0..v.len()).min_by_key(|&i| (rank(&v[i]), i)).unwrap();
     Some(v.swap_remove(i))
 }
-
-#[allow(dead_code)]
-pub fn unused(_: &dyn ByteSlice) {}
